@@ -141,16 +141,33 @@ def sensitivity(tier, seed, only=None):
                 print("sensitivity %-40s %s" % (m["id"], rec["status"]))
                 continue
             if run_suite:
-                t = subprocess.run(["/venv/bin/python", "-m", "pytest", "-q", "-x", "-p", "no:cacheprovider", "numba_scfg"],
-                                   cwd=work, capture_output=True, text=True,
-                                   env=dict(os.environ, PYTHONPATH=work, PYTHONDONTWRITEBYTECODE="1"))
-                rec["suite_passes"] = t.returncode == 0
+                try:
+                    t = subprocess.run(["/venv/bin/python", "-m", "pytest", "-q", "-x", "-p", "no:cacheprovider",
+                                        "--timeout=120", "numba_scfg"],
+                                       cwd=work, capture_output=True, text=True, timeout=300,
+                                       env=dict(os.environ, PYTHONPATH=work, PYTHONDONTWRITEBYTECODE="1"))
+                    rec["suite_passes"] = t.returncode == 0
+                except subprocess.TimeoutExpired:
+                    rec["suite_passes"] = False
+                    rec["suite_note"] = "suite hangs with this change"
+                if not rec["suite_passes"]:
+                    # the repository's own suite already kills it: uninteresting
+                    rec["status"] = "killed-by-suite"
+                    results.append(rec)
+                    print("sensitivity %-40s killed-by-suite (not counted)" % m["id"])
+                    continue
             env = dict(os.environ, VERIF_REPO=work, VERIF_EVIDENCE_DIR=os.path.join(work, "_evidence"),
                        VERIF_REPLAY_DIR=os.path.join(work, "_replays"), VERIF_SEED=str(seed),
                        VERIF_MINIMISE_S="15", VERIF_MAX_GROUPS="2")
             t0 = time.time()
-            c = subprocess.run([os.path.join(VERIF_DIR, "check"), m["property"], "--tier", tier],
-                               capture_output=True, text=True, env=env, cwd=VERIF_DIR)
+            try:
+                c = subprocess.run([os.path.join(VERIF_DIR, "check"), m["property"], "--tier", tier],
+                                   capture_output=True, text=True, env=env, cwd=VERIF_DIR, timeout=1500)
+            except subprocess.TimeoutExpired:
+                rec["status"] = "check-timeout"
+                results.append(rec)
+                print("sensitivity %-40s check-timeout" % m["id"])
+                continue
             rec["check_exit"] = c.returncode
             rec["seconds"] = round(time.time() - t0, 1)
             viol = [ln for ln in c.stdout.splitlines() if ln.startswith("VIOLATION") or ln.startswith("  signature")]
@@ -168,9 +185,11 @@ def sensitivity(tier, seed, only=None):
     if not only:
         with open(os.path.join(OUT_DIR, "sensitivity.json"), "w") as fh:
             json.dump({"seed": seed, "tier": tier, "wall_s": round(time.time() - t00, 1), "results": results}, fh, indent=1)
-    killed = sum(1 for r in results if r.get("status") == "killed")
-    print("sensitivity: %d of %d killed" % (killed, len(results)))
-    return 0 if killed == len(results) else 1
+    counted = [r for r in results if r.get("status") != "killed-by-suite"]
+    killed = sum(1 for r in counted if r.get("status") == "killed")
+    print("sensitivity: %d of %d killed (%d more are killed by the repository's own suite)" % (
+        killed, len(counted), len(results) - len(counted)))
+    return 0 if killed == len(counted) else 1
 
 
 def main(what, tier, seed):
